@@ -75,34 +75,47 @@ class R2Comparable(Contract):
         "true_target_goes_through_tr", z3.BoolVal(True))}
 
 
+def _mat(v):
+    """the matrix of a table: the array itself, or the values of a (numeric) data frame"""
+    return v.fields["$matrix"] if isinstance(v, Obj) and v.tag == "DataFrame" else v
+
+
 @contract(M + "correlations.py::non_linear_correlations", "C18")
 class NonLinear(Contract):
-    """array branch (the DataFrame branch writes through pandas .iloc: bounded stand-in)"""
-    variants = [True, False]
+    """both branches: a numpy array, and a pandas DataFrame (the accumulators are then frames written through .iloc - pandas modelled
+    as a labelled matrix, pyvc/pdmodel.py)"""
+    variants = [(mm, fr) for mm in (True, False) for fr in (False, True)]
     max_paths = 20000
 
-    def setup(self, E, minmax):
+    def setup(self, E, v):
+        minmax, frame = v
         n, d = E.size("n", 2), E.size("d", 1)
         model = models.new_estimator(E, "model", methods=("fit", "predict", "get_params", "set_params"))
-        return dict(df=E.nd("df", (n, d)), model=model, draws=E.size("draws", 1), minmax=minmax)
+        data = E.nd("df", (n, d))
+        if frame:
+            from pyvc.values import Opaque
+            labels = Opaque(z3.Const("column_labels", z3.DeclareSort("Labels")), "labels")
+            data = E.registry.numeric_frame(data, labels, Opaque(z3.Const("row_labels", z3.DeclareSort("Labels")), "labels"))
+        return dict(df=data, model=model, draws=E.size("draws", 1), minmax=minmax, _frame=frame)
 
     def old(self, E, a):
-        return dict(w=a.df.cell.writes, ev=len(a.model.events))
+        return dict(w=_mat(a.df).cell.writes, ev=len(a.model.events), fev=len(a.df.events) if isinstance(a.df, Obj) else 0)
 
     @staticmethod
     def _cells(E, L, done):
         """done(i', j') -> Bool: the cell already received the contribution of the current draw"""
-        cor = L["cor"]
+        cor = _mat(L["cor"])
         d = z(cor.shape[0])
         k = z(L["k"])
-        out = {"square": z3.And(z(cor.shape[0]) == z(L["df"].shape[1]), z(cor.shape[1]) == z(L["df"].shape[1]))}
+        out = {"square": z3.And(z(cor.shape[0]) == z(_mat(L["df"]).shape[1]), z(cor.shape[1]) == z(_mat(L["df"]).shape[1]))}
         cnt = lambda i, j: k + z3.If(done(i, j), 1, 0)
-        arrs = [cor] + ([L["mini"], L["maxi"]] if L["minmax"] else [])
-        out["no_entry_is_nan"] = E.forall_range([(0, d), (0, d)], lambda i, j: z3.And(*[_not_nan(m, i, j) for m in arrs]))
+        arrs = [cor] + ([_mat(L["mini"]), _mat(L["maxi"])] if L["minmax"] else [])
+        for nm, m in zip(("sum", "min", "max"), arrs):          # one quantifier per matrix: each is its own trigger
+            out["no_entry_of_the_%s_is_nan" % nm] = E.forall_range([(0, d), (0, d)], lambda i, j, m=m: _not_nan(m, i, j))
         out["sum_between_0_and_number_of_draws"] = E.forall_range(
             [(0, d), (0, d)], lambda i, j: z3.And(cor.get(i, j) >= 0, cor.get(i, j) <= z3.ToReal(cnt(i, j))))
         if L["minmax"]:
-            mini, maxi = L["mini"], L["maxi"]
+            mini, maxi = _mat(L["mini"]), _mat(L["maxi"])
             out["min_max_shapes"] = z3.And(z(mini.shape[0]) == d, z(mini.shape[1]) == d, z(maxi.shape[0]) == d, z(maxi.shape[1]) == d)
             out["min_below_max_in_unit_interval"] = E.forall_range(
                 [(0, d), (0, d)], lambda i, j: z3.Implies(cnt(i, j) > 0, z3.And(
@@ -125,14 +138,30 @@ class NonLinear(Contract):
     @staticmethod
     def _inv_j(E, L):
         ii = z(L["i"])
-        return NonLinear._cells(E, L, lambda i, j: z3.Or(i < ii, z3.And(i == ii, j < L.i)))
+        out = NonLinear._cells(E, L, lambda i, j: z3.Or(i < ii, z3.And(i == ii, j < L.i)))
+        # every coefficient is computed with ITS OWN copy of the model: whatever was fitted since the previous evaluation of this
+        # invariant (one execution of the body) is a clone made since then (ghost: position in the trace of external calls)
+        tl = E.ps.get("c18_trace_mark", 0)
+        since = E.trace[tl:]
+        made = [t["result"] for t in since if t["op"] == "clone"]
+        out["each_coefficient_is_fitted_on_a_fresh_clone_of_the_model"] = z3.BoolVal(
+            all(any(t["obj"] is m for m in made) for t in since if t["op"] == "fit"))
+        E.ps["c18_trace_mark"] = len(E.trace)
+        return out
 
     loops = {0: _inv_k.__func__, 1: _inv_i.__func__, 2: _inv_j.__func__}
 
     def ensures(self, E, a, res, old):
-        d = z(a.df.shape[1])
-        out = {"input_not_modified": z3.BoolVal(a.df.cell.writes == old["w"]), "model_itself_never_fitted": z3.BoolVal(len(a.model.events) == old["ev"])}
-        mats = list(res) if isinstance(res, tuple) else [res]
+        d = z(_mat(a.df).shape[1])
+        out = {"input_not_modified": z3.BoolVal(_mat(a.df).cell.writes == old["w"] and (not isinstance(a.df, Obj) or len(a.df.events) == old["fev"])),
+               "model_itself_never_fitted": z3.BoolVal(len(a.model.events) == old["ev"])}
+        outs = list(res) if isinstance(res, tuple) else [res]
+        if a._frame:
+            # a data frame in, data frames out, labelled by the columns of the input on both sides
+            out["frames_labelled_by_the_input_columns"] = z3.BoolVal(all(
+                isinstance(m, Obj) and m.tag == "DataFrame" and m is not a.df and m.fields.get("$cols") is a.df.fields["$cols"]
+                and m.fields.get("$index") is a.df.fields["$cols"] for m in outs))
+        mats = [_mat(m) for m in outs]
         ok = all(isinstance(m, NdArr) and m.ndim == 2 for m in mats) and len(mats) == (3 if a.minmax else 1)
         out["matrices"] = z3.BoolVal(ok)
         if not ok:
@@ -151,8 +180,8 @@ class NonLinear(Contract):
         return out
 
     canaries = {"entries_below_one_half": lambda E, a, res, old: E.forall_range(
-        [(0, z(a.df.shape[1])), (0, z(a.df.shape[1]))],
-        lambda i, j: (res[0] if isinstance(res, tuple) else res).get(i, j) <= z3.RealVal("1/2"))}
+        [(0, z(_mat(a.df).shape[1])), (0, z(_mat(a.df).shape[1]))],
+        lambda i, j: _mat(res[0] if isinstance(res, tuple) else res).get(i, j) <= z3.RealVal("1/2"))}
 
 
 def _not_nan(m, i, j):
@@ -175,7 +204,12 @@ META = dict(
     level="proof", lean_files=["lemmas/Sums.lean"], assumptions=["A1", "A2", "A6", "A7", "A9"],
     trusted=["r2_score is opaque (its value is returned unchanged); numpy.log/exp are element-wise ln/exp",
              "sklearn.preprocessing.scale returns a new array; train_test_split(test_size=0.5) returns two non-empty new arrays for n>=2; "
-             "numpy.var >= 0; sqrt maps [0,1] into [0,1]; clone returns a fresh estimator"],
+             "numpy.var >= 0; sqrt maps [0,1] into [0,1]; clone returns a fresh estimator",
+             "pandas (pyvc/pdmodel.py): a numeric DataFrame is a labelled matrix - .iloc[i, j] / .iloc[:, :] read and write its cells, .corr() is a square frame "
+             "labelled by the columns whose entries may be NaN, .copy() copies the values, frame / number divides the values and keeps the labels; "
+             "numpy.corrcoef entries may be NaN (constant columns)"],
     not_applicable=["unit diagonal for a model able to learn the identity: depends on the learner (not a property of this code)",
-                    "DataFrame branch (pandas .iloc writes) and DataFrame/array equality under the same seed: bounded stand-in"],
+                    "DataFrame/array equality under the same seed (a relation between two runs with the same random split): bounded stand-in. The "
+                    "DataFrame branch itself is proved like the array branch (accumulators are frames written through .iloc; results are new frames "
+                    "labelled by the input's columns on both sides)"],
 )
